@@ -114,7 +114,7 @@ fn(I_ + "create_population", params={"pop_size": "int", "problem": "ref:Problem"
        cl("inv_new", "len(pop) == k and fresh(pop)"),
        cl("inv_unevaluated", "forall(lambda a: imp(0 <= a < k, pop[a] != None and fresh(pop[a]) and pop[a].problem == problem "
           "and needs_eval(pop[a])), pat=pop[a])")])},
-   ensures=[cl("size", "len(result) == ite(pop_size > 0, pop_size, 0) and fresh(result)", tags="C12"),
+   ensures=[cl("size", "len(result) == ite(pop_size > 0, pop_size, 0) and fresh(result) and kind(result) == 0", tags="C12"),
             cl("new_unevaluated_individuals", "forall(lambda a: imp(0 <= a < len(result), result[a] != None and fresh(result[a]) "
                "and result[a].problem == problem and needs_eval(result[a])), pat=result[a])", tags="C02")])
 
@@ -141,8 +141,8 @@ assert " ".join(_abs.ensures[0].text.split()) == " ".join(FRESH.replace("self", 
 assert [" ".join(c.text.split()) for c in _abs.requires] == [" ".join(c.text.split()) for c in CTOR_PRE]
 
 from pyvc.spec import trusted  # noqa: E402
-trusted("deme class invariants (DemePop, CmaDeme, SamplerDeme, LocalInv, populated demes) are "
-        "assumed at the entry of each concrete run_metaepoch / filter / generator: they are proved to be established by the constructors and "
+trusted("deme class invariants (DemePop, CmaDeme, SamplerDeme, LocalInv) are "
+        "assumed at the entry of each concrete run_metaepoch: they are proved to be established by the constructors and "
         "kept by run_metaepoch; that the rest of the tree code does not break them is a framing argument on paper (DESIGN.md section 4)")
 trusted("level configurations are sane: pop_size >= 1, generations >= 1, a sprout seed for CMA-ES / local-search levels, a configuration "
         "object of the class the deme class expects (the built-in class table guarantees the latter)")
